@@ -165,6 +165,17 @@ def run(res, tier):
                              and any(v['k'] == 'VarDecl' and v['d'] == A.root_loc(c.receiver())[1] and C.dominates(f, v['i'], w['i']) for v in f.walk())]
                 if local_rel and P.must_follow(f, w, local_rel, esc)[0]:
                     pre = True
+            if not pre:
+                # the old reference is handed to a local ConstRef (this->SwapContents(local) before the store); the local's destructor releases it after the new item has been
+                # referenced — the safe order when releasing the old item could destroy the new one (cur = cur()->_next)
+                for v in f.walk():
+                    if v['k'] == 'VarDecl' and re.search(r'(^|::)ConstRef(<|$)', v.type().replace('const ', '')) and not v.type().rstrip().endswith(('&', '*')):
+                        sw = [c for c in f.walk() if c['k'] == 'CXXMemberCallExpr' and (c.get('q') or '').endswith('ConstRef::SwapContents') and c.args()
+                              and ((A.strip_casts(c.args()[0]).get('d') == v['d'] and (c.receiver() is None or A.strip_casts(c.receiver())['k'] == 'CXXThisExpr'))
+                                   or (c.receiver() is not None and A.strip_casts(c.receiver()).get('d') == v['d'] and A.strip_casts(c.args()[0])['k'] in ('UnaryOperator', 'CXXThisExpr')))]
+                        if sw and P.must_precede(f, sw, w, esc) and not any(A.strip_casts(x).get('d') == v['d'] for r_ in f.walk() if r_['k'] == 'ReturnStmt' for x in r_.walk()):
+                            pre = True
+                            rel = sw
             if clears:
                 res.ob('REF-PAIR', f.where(w), '%s clears _item only after releasing the reference' % short, pre, function=f.q, key=key,
                        how='release call at line %s' % (rel[0].get('l') if rel else '?'),
@@ -225,6 +236,21 @@ def run(res, tier):
         res.ob('POOL', g.where(bad[0]) if bad else g.where(), '%d access(es) to the slab list in %s hold _mutex' % (len(acc), short), not bad, function=g.q,
                how='must-hold lock set contains _mutex%s' % (' (assumed at entry: held at all call sites)' if cl.entry.get(g.id) else ''), key='POOL|%s|lockset' % g.q,
                message='%s touches %s at line %s without holding the pool mutex' % (g.q, bad[0].get('n') if bad else '', bad[0].get('l') if bad else ''))
+    # ---- REF-PAIR (order): when a Ref switches items the new item is referenced before the old one is released
+    for f in sorted(methods, key=lambda f: f.line):
+        if f.q.split('::')[-1] != 'SetRef':
+            continue
+        rels = [c for c in P.calls(f, r'::(UnrefItem|UnrefItemAux)$') if c.receiver() is None or A.strip_casts(c.receiver())['k'] == 'CXXThisExpr']
+        refs = P.calls(f, r'::RefItem$')
+        bad = None
+        for r_ in rels:
+            for a_ in refs:
+                rp, ap = P.pos_of(f, r_), P.pos_of(f, a_)
+                if rp and ap and ((rp[0] == ap[0] and rp[1] < ap[1]) or C.can_reach(f, rp, set([ap]))):
+                    bad = (r_, a_)
+        res.ob('REF-PAIR', f.where(), 'SetRef references the new item before it releases the old one', bad is None and bool(refs), function=f.q, key='REF-PAIR|%s|ref-new-before-release-old' % f.q,
+               message='%s releases the old item (line %s) before it references the new one (line %s): when the old item holds the only other reference to the new item (cur = cur()->_next on a '
+                       'linked list) the release destroys the new item, and the Ref then points at — and increments the count of — a freed object' % (f.q, bad[0].get('l') if bad else '', bad[1].get('l') if bad else ''))
     res.explanation = ('Static decision of the release-exactly-once structure on forced instantiations: the last-reference decision is one atomic RMW; delete/recycle only under that decision, the counting bit and '
                        'allowDelete; every store into ConstRef::_item is bracketed by the matching count operations (per-method obligations on ConstRef<ByteBuffer>); the pool resets an object and clears its '
                        'manager before it re-enters the free list, manipulates the slab lists only under its mutex and deletes slabs outside it. Interleavings, ABA and the pool\'s sanity-check invariants are not explored.')
